@@ -101,8 +101,33 @@ def run_reader_case(prog, params):
         pos = 0
         trace = []
         for step in range(k):
-            kind = ex.choose(4, 'kind')
-            if kind == 0:
+            kind = ex.choose(5 if params.get('readall', True) else 4, 'kind')
+            if kind == 4:
+                # read_to_end from the current position: exactly the remaining bytes, cursor at the end afterwards
+                out = sr.do('hreadall h')
+                o = sr.last
+                trace.append('read_to_end()')
+                key = '%s|reader|read_to_end%s' % (cfg, '' if step == 0 else '|after:' + trace[-2].split('(')[0])
+                if o.tag == 'panic':
+                    findings.append(make_finding('C13', key + '|panic:%s' % o.where, 'read_to_end after %s panics: %s' % (trace[:-1], o.msg), sr,
+                                                 profile='release' if release else 'dev'))
+                    return findings
+                if not o.ok:
+                    findings.append(make_finding(prop, key + '|unexpected_err', 'read_to_end fails: %s' % o.brief(), sr))
+                    return findings
+                p_ = ex.concretize(pos, clen)
+                want = S(content[p_:]) if p_ is not None else S()
+                gk, gbuf = o.value
+                if gk != len(want) or len(gbuf) != len(want):
+                    findings.append(make_finding(prop, key + '|wrong_count', 'read_to_end returned %s bytes, %d remain after the cursor' % (gk, len(want)), sr))
+                    return findings
+                m = ex.check(seq_eq(gbuf, want), 'read_to_end data')
+                if m is not None:
+                    findings.append(make_finding(prop, key + '|wrong_bytes', 'read_to_end returned wrong bytes', sr, m))
+                    return findings
+                if p_ is not None:
+                    pos = clen
+            elif kind == 0:
                 n = sizes[ex.choose(len(sizes), 'size')]
                 out = sr.do('hread h %d' % n)
                 o = sr.last
@@ -328,6 +353,27 @@ def check_content(sr, ex, var, exp, findings, prop, key):
         if m is not None:
             findings.append(make_finding(prop, key + '|wrong_bytes', 'fresh read (buffer %d) returns wrong bytes' % chunk, sr, m))
             return False
+    if len(exp) >= 1:
+        # a header read followed by read_to_end / read_to_string: the remainder, not the whole file again
+        hn = 'rb%d' % len(sr.log)
+        sr.do('hopen %s %s open' % (hn, var))
+        if sr.last.ok:
+            sr.do('hread %s 1' % hn)
+            sr.do('hreadall %s' % hn)
+            o = sr.last
+            if o.tag == 'panic':
+                findings.append(make_finding('C13', key + '|read_to_end_panic:%s' % o.where, 'read_to_end panics: %s' % o.msg, sr))
+                return False
+            if o.ok:
+                gk, gbuf = o.value
+                if gk != len(exp) - 1 or len(gbuf) != len(exp) - 1:
+                    findings.append(make_finding(prop, key + '|read_to_end_wrong_length', 'read(1) then read_to_end returns %s more bytes, expected %d' % (gk, len(exp) - 1), sr))
+                    return False
+                m = ex.check(seq_eq(gbuf, S(exp[1:])), 'read_to_end content')
+                if m is not None:
+                    findings.append(make_finding(prop, key + '|read_to_end_wrong_bytes', 'read(1) then read_to_end returns wrong bytes', sr, m))
+                    return False
+            sr.do('hdrop %s' % hn)
     sr.do('metadata %s' % var)
     o = sr.last
     if not o.ok or o.value[:2] != ('file', len(exp)):
